@@ -99,7 +99,10 @@ func plan(tier string, seed int64) []run.Batch {
 	return bs
 }
 
+var theBatch run.Batch
+
 func child(b run.Batch, r *ev.Result) {
+	theBatch = b
 	rng := rand.New(rand.NewSource(b.Seed))
 	drv.SetClock(0)
 	drv.GateRotation(true)
@@ -318,7 +321,7 @@ func serverSequence(r *ev.Result, rng *rand.Rand, dir, label string) {
 		if len(tail) > 30 {
 			tail = tail[len(tail)-30:]
 		}
-		rp := map[string]interface{}{"sequence": label, "registered": registered, "ops_tail": describe(tail)}
+		rp := map[string]interface{}{"sequence": label, "registered": registered, "ops_tail": describe(tail), "batch": theBatch}
 		valid := registered && refenc.Verify(gca.Pub, op.Rec.SigningBytes(), op.Rec.Sig)
 		_, existed := prev[op.Rec.Pub]
 		if valid || existed {
@@ -803,7 +806,7 @@ func (q *cseq) replay(extra map[string]interface{}) map[string]interface{} {
 	if len(t) > 25 {
 		t = t[len(t)-25:]
 	}
-	o := map[string]interface{}{"sequence": q.label, "steps_tail": t}
+	o := map[string]interface{}{"sequence": q.label, "steps_tail": t, "batch": theBatch}
 	for k, v := range extra {
 		o[k] = v
 	}
@@ -1050,11 +1053,17 @@ func (q *cseq) build(forceZero bool) (raw []byte, class string, terminal bool) {
 		return finish(), "list_badsig", false
 	case w < 68: // reply not from the contacted server / not fresh
 		rep.Servers = append(rep.Servers, q.newEntry(true).Signed(G.Priv))
-		switch rng.Intn(3) {
+		switch rng.Intn(4) {
 		case 0:
 			signer = q.foreign.Priv
 		case 1:
 			signer = G.Priv
+		case 2: // cut short, length prefix consistent with what is sent
+			full := finish()
+			m := []int{5, 47, 71, 100, 600, 711}[rng.Intn(6)]
+			cut := append([]byte(nil), full[:2+m]...)
+			binary.LittleEndian.PutUint16(cut, uint16(m))
+			return cut, "list_unauthentic", false
 		default:
 			rep.Unix = uint64(time.Now().Unix() + int64(1-2*rng.Intn(2))*3*24*3600)
 		}
@@ -1410,7 +1419,11 @@ func clientSequence(r *ev.Result, rng *rand.Rand, dir, label string, zeroEnding 
 		rogue.SetReply(func(req []byte, n int) ([]byte, int) { return raw, -1 })
 		a0 := rogue.AcceptCount()
 		run.Op("%s round %d class=%s", label, step, class)
-		ret := q.c.VerifSyncOnce(binary.LittleEndian.Uint32(raw[34:38]))
+		latest := uint32(0)
+		if len(raw) >= 38 {
+			latest = binary.LittleEndian.Uint32(raw[34:38])
+		}
+		ret := q.c.VerifSyncOnce(latest)
 		contacted := rogue.AcceptCount() > a0
 		r.Eval(1)
 		r.Count("cli.class."+class, 1)
